@@ -278,6 +278,9 @@ class SimProblem(Problem):
             self._note_fired(idx, "hess", k, x, site)
             return self._faulty_sparse(self.um.H(x, y), fl)
         if cor is not None:
+            if "wrong_y" in cor:
+                # a user bug in the constraint-curvature part only: the multiplier is mis-scaled
+                return self._sparse(self.um.H(x, cor["wrong_y"] * np.asarray(y, float)))
             return self._corrupt_sparse(self.um.H(x, y), cor)
         return self._deliver(
             "hess", x.tobytes() + np.asarray(y, float).tobytes(), lambda: self._sparse(self.um.H(x, y)), const=self.is_const_H
